@@ -83,10 +83,11 @@ FailsFlip(e) ==
 \* damaged headers (stand-alone files built by the harness's own writer)
 FailsHdr(e) ==
   Chk(e.panic = "", "reader panicked")
-  \o (CASE e.variant \in {"intact", "nocodec"} ->
+  \o (CASE e.variant \in {"intact", "nocodec", "intact-split1", "nocodec-split1", "intact-split4", "nocodec-split4"} ->
              Chk(e.err = "none", "valid file rejected (a header without avro.codec means uncompressed)")
              \o Chk(Len(e.delivered) = 1 /\ (Len(e.delivered) # 1 \/ SameValue(e.input, e.delivered[1])), "record not delivered")
-        [] e.variant \in {"badmagic", "unknowncodec", "noschema", "unknowncodec-empty", "unknowncodec-upper", "unknowncodec-space", "unknowncodec-zstd"} ->
+        [] e.variant \in {"badmagic", "unknowncodec", "noschema", "unknowncodec-empty", "unknowncodec-upper", "unknowncodec-space", "unknowncodec-zstd",
+                           "unknowncodec-split1", "unknowncodec-zstd-split1", "unknowncodec-split4", "unknowncodec-zstd-split4"} ->
              Chk(e.err = "other", "damaged header accepted: " \o e.variant) \o Chk(e.delivered = <<>>, "records delivered from a file with a damaged header")
         [] OTHER -> <<"unknown header variant">>)
 
